@@ -45,7 +45,11 @@ def callback_outcomes(ctx: Ctx, name: str) -> Tuple[FunctionInfo, List[Outcome],
         raise AnalysisError('F1', f'PropertyTransformer.{name} not found (anchor vanished)')
     params = fi.params()[1:]
     ev = parser_eval(ctx)
-    if inline[name]:
+    va = fi.node.args.vararg
+    if inline[name] and not params and va is not None:
+        # def rule(self, *children): the inlined children arrive as one tuple, like the list of the non-inline form
+        args = {va.arg: Sym('children')}
+    elif inline[name]:
         args = {p: Sym(f'c{i}') for i, p in enumerate(params)}
     else:
         args = {params[0]: Sym('children')}
